@@ -4,5 +4,446 @@ Import ListNotations.
 Require Import Verif.lib.PyLite Verif.gen.ReachGen Verif.lib.Reach.
 Local Open Scope Z_scope.
 
+(* ------------------------------------------------------------------ facts read off the translated source *)
 Lemma swissnum_bits : 128 <= NAMEBITS.
 Proof. unfold NAMEBITS. lia. Qed.
+
+Lemma remote_prefix_is : remote_prefix = "remote_"%string.
+Proof. reflexivity. Qed.
+
+Lemma broker_clid_is : broker_clid = 0.
+Proof. reflexivity. Qed.
+
+Lemma broker_methods_pinned :
+  broker_methods = ["getReferenceByName"; "decref"; "decgift"]%string /\
+  broker_remote_attrs = map (fun m => remote_prefix ++ m)%string ["decref"; "decgift"; "getReferenceByName"]%string.
+Proof. split; reflexivity. Qed.
+
+Lemma top_types_pinned : top_types = [["answer"]; ["call"]; ["error"]]%string.
+Proof. reflexivity. Qed.
+
+(* every OPEN type accepted below the top level builds plain data or one of the four reference forms *)
+Definition data_types : list (list string) :=
+  [["arguments"]; ["boolean"]; ["decimal"]; ["dict"]; ["immutable-set"]; ["list"]; ["my-reference"]; ["none"];
+   ["reference"]; ["set"]; ["their-reference"]; ["tuple"]; ["unicode"]; ["your-reference"]]%string.
+Lemma open_types_closed : forallb (fun k => mem_type k data_types) open_types = true.
+Proof. reflexivity. Qed.
+Lemma no_code_types :
+  forallb (fun t => negb (mem_type [t] open_types))
+          ["instance"; "class"; "module"; "function"; "method"; "call"; "answer"; "error"; "copyable"]%string = true.
+Proof. reflexivity. Qed.
+
+(* ------------------------------------------------------------------ association lists *)
+Lemma zget_In {V} k (v : V) l : zget k l = Some v -> In (k, v) l.
+Proof.
+  induction l as [|[k' v'] l IH]; cbn [zget]; [discriminate|].
+  destruct (k =? k') eqn:E; intros H.
+  - apply Z.eqb_eq in E. inversion H; subst. left; reflexivity.
+  - right; auto.
+Qed.
+
+Lemma In_zdel {V} k (x : Z * V) l : In x (zdel k l) -> In x l.
+Proof.
+  induction l as [|[k' v'] l IH]; cbn [zdel]; [tauto|].
+  destruct (k =? k'); cbn [In]; intros H; [right; auto | destruct H; [left; auto | right; auto]].
+Qed.
+
+Lemma In_zset {V} k (v : V) x l : In x (zset k v l) -> x = (k, v) \/ In x l.
+Proof. unfold zset. cbn [In]. intros [H|H]; [left; auto | right; eapply In_zdel; eauto]. Qed.
+
+Lemma sget_In {V} k (v : V) l : sget k l = Some v -> In (k, v) l.
+Proof.
+  induction l as [|[k' v'] l IH]; cbn [sget]; [discriminate|].
+  destruct (String.eqb k k') eqn:E; intros H.
+  - apply String.eqb_eq in E. inversion H; subst. left; reflexivity.
+  - right; auto.
+Qed.
+
+Lemma In_sdel {V} k (x : string * V) l : In x (sdel k l) -> In x l.
+Proof.
+  induction l as [|[k' v'] l IH]; cbn [sdel]; [tauto|].
+  destruct (String.eqb k k'); cbn [In]; intros H; [right; auto | destruct H; [left; auto | right; auto]].
+Qed.
+
+Lemma In_sset {V} k (v : V) x l : In x (sset k v l) -> x = (k, v) \/ In x l.
+Proof. unfold sset. cbn [In]. intros [H|H]; [left; auto | right; eapply In_sdel; eauto]. Qed.
+
+Lemma mem_str_In s l : mem_str s l = true <-> In s l.
+Proof.
+  unfold mem_str. rewrite existsb_exists. split.
+  - intros [x [H1 H2]]. apply String.eqb_eq in H2. subst; auto.
+  - intros H. exists s. split; auto. apply String.eqb_refl.
+Qed.
+
+Lemma find_obj_In o l k rc : find_obj o l = Some (k, rc) -> In (k, (o, rc)) l.
+Proof.
+  induction l as [|[k' [o' rc']] l IH]; cbn [find_obj]; [discriminate|].
+  destruct (o =? o') eqn:E; intros H.
+  - apply Z.eqb_eq in E. inversion H; subst. left; reflexivity.
+  - right; auto.
+Qed.
+
+Lemma prefix_app p s : String.prefix p (p ++ s) = true.
+Proof.
+  induction p as [|a p IH]; cbn.
+  - destruct s; reflexivity.
+  - destruct (ascii_dec a a); [exact IH | congruence].
+Qed.
+
+(* the translated ReferenceableTracker.decref *)
+Lemma tracker_decref_spec n rc done rc' :
+  tracker_decref n rc = Ok (done, rc') -> rc' = rc - n /\ 0 <= rc' /\ (done = true <-> rc' = 0).
+Proof.
+  unfold tracker_decref. destruct (Z.geb rc n) eqn:G; [|discriminate].
+  rewrite Z.geb_leb in G. apply Z.leb_le in G.
+  destruct (Z.eqb (rc - n) 0) eqn:E; intros H; inversion H; subst.
+  - apply Z.eqb_eq in E. repeat split; try lia; auto.
+  - apply Z.eqb_neq in E. repeat split; try lia; intros; try discriminate; lia.
+Qed.
+
+(* ------------------------------------------------------------------ argument processing *)
+Lemma do_args_inst copy ex args : forall inst0 inst,
+  (do_args copy ex args inst0 = ArgsOk inst \/ exists r, do_args copy ex args inst0 = ArgsFail inst r) ->
+  forall cls, In cls inst -> In cls inst0 \/ exists n, In (ACopyable n) args /\ sget n copy = Some cls.
+Proof.
+  induction args as [|a args IH]; intros inst0 inst H cls Hin.
+  - cbn [do_args] in H. destruct H as [H|[r H]]; [inversion H; subst; auto | discriminate].
+  - cbn [do_args] in H. destruct a as [v|s|k|n|t].
+    + destruct (IH _ _ H cls Hin) as [?|[n [? ?]]]; [auto | right; exists n; split; [right; auto | auto]].
+    + destruct (IH _ _ H cls Hin) as [?|[n [? ?]]]; [auto | right; exists n; split; [right; auto | auto]].
+    + destruct ((k <? 0) && negb yourref_accepts_neg).
+      { destruct H as [H|[r H]]; [discriminate | inversion H; subst; auto]. }
+      destruct ((k =? broker_clid) || is_some (zget k ex)).
+      * destruct (IH _ _ H cls Hin) as [?|[n [? ?]]]; [auto | right; exists n; split; [right; auto | auto]].
+      * destruct clid_lookup; destruct H as [H|[r H]]; try discriminate; inversion H; subst; auto.
+    + destruct (sget n copy) as [c|] eqn:E.
+      * destruct (IH _ _ H cls Hin) as [Hc|[n' [? ?]]].
+        -- apply in_app_or in Hc. destruct Hc as [?|[?|[]]]; [auto|]. subst.
+           right; exists n; split; [left; auto | auto].
+        -- right; exists n'; split; [right; auto | auto].
+      * destruct H as [H|[r H]]; [discriminate | inversion H; subst; auto].
+    + destruct (mem_type [t] open_types).
+      * destruct (IH _ _ H cls Hin) as [?|[n [? ?]]]; [auto | right; exists n; split; [right; auto | auto]].
+      * destruct H as [H|[r H]]; [discriminate | inversion H; subst; auto].
+Qed.
+
+(* a call whose arguments were all accepted used only open types of the closed registry, only registered copyable
+   names and only your-references this connection's table (or 0) resolves *)
+Lemma do_args_ok copy ex args : forall inst0 inst, do_args copy ex args inst0 = ArgsOk inst ->
+  (forall t, In (AOpen t) args -> mem_type [t] open_types = true) /\
+  (forall n, In (ACopyable n) args -> exists c, sget n copy = Some c) /\
+  (forall k, In (AYourRef k) args -> k = broker_clid \/ exists v, zget k ex = Some v).
+Proof.
+  induction args as [|a args IH]; intros inst0 inst H.
+  - split; [|split]; intros ? [].
+  - cbn [do_args] in H. destruct a as [v|s|k|n|t].
+    + destruct (IH _ _ H) as [A [B C]]. split; [|split]; intros x [Hx|Hx]; try discriminate; auto.
+    + destruct (IH _ _ H) as [A [B C]]. split; [|split]; intros x [Hx|Hx]; try discriminate; auto.
+    + destruct ((k <? 0) && negb yourref_accepts_neg); [discriminate|].
+      destruct ((k =? broker_clid) || is_some (zget k ex)) eqn:E; [|destruct clid_lookup; discriminate].
+      destruct (IH _ _ H) as [A [B C]]. split; [|split]; intros x [Hx|Hx]; try discriminate; auto.
+      inversion Hx; subst. apply orb_true_iff in E. destruct E as [E|E].
+      * left. apply Z.eqb_eq; auto.
+      * right. destruct (zget x ex) as [v|]; [exists v; auto | discriminate].
+    + destruct (sget n copy) as [c|] eqn:E; [|discriminate].
+      destruct (IH _ _ H) as [A [B C]]. split; [|split]; intros x [Hx|Hx]; try discriminate; auto.
+      inversion Hx; subst. exists c; auto.
+    + destruct (mem_type [t] open_types) eqn:E; [|discriminate].
+      destruct (IH _ _ H) as [A [B C]]. split; [|split]; intros x [Hx|Hx]; try discriminate; auto.
+      inversion Hx; subst. auto.
+Qed.
+
+(* ------------------------------------------------------------------ dispatch *)
+Lemma broker_call_enter m args e fx :
+  broker_call m args = (Enter e, fx) ->
+  exists s, m = MStr s /\ In s broker_methods /\ e = EBroker (remote_prefix ++ s) /\
+            In (remote_prefix ++ s)%string broker_remote_attrs.
+Proof.
+  unfold broker_call. destruct m as [s|]; [|discriminate].
+  destruct (iface_enforced && negb (mem_str s broker_methods)) eqn:E1; [discriminate|].
+  destruct (negb (mem_str (remote_prefix ++ s) broker_remote_attrs)) eqn:E2; [discriminate|].
+  apply negb_false_iff in E2. apply mem_str_In in E2.
+  assert (Hin : In s broker_methods).
+  { unfold iface_enforced in E1. cbn [andb] in E1. apply negb_false_iff in E1. apply mem_str_In; auto. }
+  intros H. exists s. split; [reflexivity|]. split; [exact Hin|]. split; [|exact E2].
+  destruct (String.eqb s "getReferenceByName").
+  { destruct args as [|[v|b|k|n|t] [|? ?]]; try discriminate. inversion H; reflexivity. }
+  destruct (String.eqb s "decref").
+  { destruct args as [|[v|b|k|n|t] [|[v2|b2|k2|n2|t2] [|? ?]]]; try discriminate. inversion H; reflexivity. }
+  destruct (String.eqb s "decgift").
+  { destruct args as [|[v|b|k|n|t] [|[v2|b2|k2|n2|t2] [|? ?]]]; try discriminate. inversion H; reflexivity. }
+  discriminate.
+Qed.
+
+Lemma broker_call_fx m args out fx :
+  broker_call m args = (out, fx) ->
+  (out = Reject -> fx = FxNone) /\ (out = Aborted <-> fx = FxDrop) /\ out <> Dead /\ out <> Local.
+Proof.
+  unfold broker_call. destruct m as [s|].
+  2:{ intros H; inversion H; subst. repeat split; auto; discriminate. }
+  destruct (iface_enforced && negb (mem_str s broker_methods)).
+  { intros H; inversion H; subst. repeat split; auto; discriminate. }
+  destruct (negb (mem_str (remote_prefix ++ s) broker_remote_attrs)).
+  { intros H; inversion H; subst. repeat split; auto; discriminate. }
+  destruct (String.eqb s "getReferenceByName").
+  { destruct args as [|[v|[nm|]|k|n|t] [|? ?]]; intros H; inversion H; subst; repeat split; auto; discriminate. }
+  destruct (String.eqb s "decref").
+  { destruct args as [|[v|b|k|n|t] [|[v2|b2|k2|n2|t2] [|? ?]]]; intros H; inversion H; subst; repeat split; auto; discriminate. }
+  destruct (String.eqb s "decgift").
+  { destruct args as [|[v|b|k|n|t] [|[v2|b2|k2|n2|t2] [|? ?]]]; intros H; inversion H; subst; repeat split; auto; discriminate. }
+  intros H; inversion H; subst. repeat split; auto; discriminate.
+Qed.
+
+Lemma obj_call_enter w copy cn clid m args inst e :
+  obj_call w copy cn clid m args = (inst, Enter e) ->
+  exists o rc, zget clid (c_exports cn) = Some (o, rc) /\
+  ((clid < 0 /\ e = ECallable o) \/
+   (0 <= clid /\ exists s, m = MStr s /\ e = EObj o (remote_prefix ++ s) /\
+      In (remote_prefix ++ s)%string (o_attrs (w_obj w o)) /\
+      (forall l, o_iface (w_obj w o) = Some l -> In s l))) /\
+  do_args copy (c_exports cn) args [] = ArgsOk inst.
+Proof.
+  unfold obj_call. destruct (zget clid (c_exports cn)) as [[o rc]|] eqn:G.
+  2:{ destruct clid_lookup; [destruct call_unknown_clid|]; discriminate. }
+  intros H. exists o, rc. split; [reflexivity|].
+  unfold negative_clid_ignores_name in H. rewrite andb_true_r in H.
+  destruct (clid <? 0) eqn:S.
+  - apply Z.ltb_lt in S. destruct (do_args copy (c_exports cn) args []) as [i|i r] eqn:D.
+    + inversion H; subst. split; [left; auto | reflexivity].
+    + destruct r; discriminate.
+  - apply Z.ltb_ge in S. destruct m as [s|]; [|discriminate].
+    unfold iface_enforced in H. cbn [andb] in H.
+    destruct (match o_iface (w_obj w o) with Some l => negb (mem_str s l) | None => false end) eqn:I; [discriminate|].
+    destruct (do_args copy (c_exports cn) args []) as [i|i r] eqn:D; [|destruct r; discriminate].
+    destruct (mem_str (remote_prefix ++ s) (o_attrs (w_obj w o))) eqn:A; [|discriminate].
+    inversion H; subst. split; [|reflexivity]. right. split; [auto|]. exists s.
+    split; [reflexivity|]. split; [reflexivity|]. split; [apply mem_str_In; auto|].
+    intros l Hl. rewrite Hl in I. apply negb_false_iff in I. apply mem_str_In; auto.
+Qed.
+
+Lemma obj_call_kinds w copy cn clid m args inst out : obj_call w copy cn clid m args = (inst, out) -> out <> Dead /\ out <> Local.
+Proof.
+  unfold obj_call. destruct (zget clid (c_exports cn)) as [[o rc]|].
+  2:{ destruct clid_lookup; [destruct call_unknown_clid|]; intros H; inversion H; split; discriminate. }
+  destruct ((clid <? 0) && negative_clid_ignores_name).
+  { destruct (do_args copy (c_exports cn) args []) as [i|i r]; [|destruct r]; intros H; inversion H; split; discriminate. }
+  destruct m as [s|]; [|intros H; inversion H; split; discriminate].
+  destruct (iface_enforced && _); [intros H; inversion H; split; discriminate|].
+  destruct (do_args copy (c_exports cn) args []) as [i|i r]; [|destruct r; intros H; inversion H; split; discriminate].
+  destruct (mem_str _ _); intros H; inversion H; split; discriminate.
+Qed.
+
+(* ------------------------------------------------------------------ one inbound call *)
+Definition exported (st : state) (c : cid) (clid o : Z) : Prop :=
+  exists rc, zget clid (c_exports (get_conn st c)) = Some (o, rc).
+
+Theorem calls_sound : forall w st c req clid m args st' r e,
+  step w st (Msg c req clid m args) = (st', r) -> r_out r = Enter e ->
+  c_alive (get_conn st c) = true /\
+  ((clid = 0 /\ exists s, m = MStr s /\ In s broker_methods /\ e = EBroker (remote_prefix ++ s)) \/
+   (clid < 0 /\ exists o, exported st c clid o /\ e = ECallable o) \/
+   (0 < clid /\ exists o s, exported st c clid o /\ m = MStr s /\ e = EObj o (remote_prefix ++ s) /\
+        In (remote_prefix ++ s)%string (o_attrs (w_obj w o)) /\
+        (forall l, o_iface (w_obj w o) = Some l -> In s l))).
+Proof.
+  intros w st c req clid m args st' r e H Hout. cbn [step] in H.
+  destruct (negb (c_alive (get_conn st c))) eqn:AL.
+  { inversion H; subst. discriminate. }
+  apply negb_false_iff in AL. split; [exact AL|].
+  destruct (clid =? broker_clid) eqn:BC.
+  - apply Z.eqb_eq in BC. unfold broker_clid in BC. left. split; [exact BC|].
+    destruct (broker_call m args) as [out fx] eqn:B.
+    assert (out = Enter e).
+    { destruct fx; try (inversion H; subst; exact Hout).
+      destruct (found_name w st n) as [[o st0]|]; [|inversion H; subst; exact Hout].
+      destruct (req =? 0); [inversion H; subst; exact Hout|].
+      destruct (grant w st0 c o "") as [s2 sent]. inversion H; subst. exact Hout. }
+    subst out. destruct (broker_call_enter _ _ _ _ B) as [s [? [? [? ?]]]]. exists s; auto.
+  - apply Z.eqb_neq in BC. unfold broker_clid in BC.
+    destruct (obj_call w (s_copy st) (get_conn st c) clid m args) as [inst out] eqn:O.
+    inversion H; subst. cbn [r_out] in Hout. subst out.
+    destruct (obj_call_enter _ _ _ _ _ _ _ _ O) as [o [rc [G [[[S E]|[S [s [M [E [A I]]]]]] D]]]].
+    + right; left. split; [exact S|]. exists o. split; [exists rc; exact G | exact E].
+    + right; right. split; [lia|]. exists o, s. split; [exists rc; exact G|]. auto.
+Qed.
+
+(* only attributes carrying the "remote_" prefix are ever looked up on an application object or on the broker *)
+Theorem entered_attr_prefixed : forall w st c req clid m args st' r,
+  step w st (Msg c req clid m args) = (st', r) ->
+  (forall o a, r_out r = Enter (EObj o a) -> String.prefix "remote_" a = true) /\
+  (forall a, r_out r = Enter (EBroker a) -> String.prefix "remote_" a = true).
+Proof.
+  intros w st c req clid m args st' r H. split.
+  - intros o a Hout. destruct (calls_sound _ _ _ _ _ _ _ _ _ _ H Hout) as [_ [[_ [s [_ [_ E]]]]|[[_ [o' [_ E]]]|[_ [o' [s [_ [_ [E _]]]]]]]]];
+      try discriminate. inversion E; subst. exact (prefix_app "remote_" s).
+  - intros a Hout. destruct (calls_sound _ _ _ _ _ _ _ _ _ _ H Hout) as [_ [[_ [s [_ [_ E]]]]|[[_ [o' [_ E]]]|[_ [o' [s [_ [_ [E _]]]]]]]]];
+      try discriminate. inversion E; subst. exact (prefix_app "remote_" s).
+Qed.
+
+(* instances are created only of classes registered for pass-by-copy, under the names the message carries *)
+Theorem classes_sound : forall w st c req clid m args st' r cls,
+  step w st (Msg c req clid m args) = (st', r) -> In cls (r_inst r) ->
+  exists n, In (ACopyable n) args /\ sget n (s_copy st) = Some cls.
+Proof.
+  intros w st c req clid m args st' r cls H Hin. cbn [step] in H.
+  destruct (negb (c_alive (get_conn st c))). { inversion H; subst. destruct Hin. }
+  destruct (clid =? broker_clid).
+  - destruct (broker_call m args) as [out fx].
+    destruct fx; try (inversion H; subst; destruct Hin).
+    destruct (found_name w st n) as [[o st0]|]; [|inversion H; subst; destruct Hin].
+    destruct (req =? 0); [inversion H; subst; destruct Hin|].
+    destruct (grant w st0 c o "") as [s2 sent]. inversion H; subst. destruct Hin.
+  - destruct (obj_call w (s_copy st) (get_conn st c) clid m args) as [inst out] eqn:O.
+    inversion H; subst. cbn [r_inst] in Hin. clear H.
+    unfold obj_call in O. destruct (zget clid (c_exports (get_conn st c))) as [[o rc]|].
+    2:{ inversion O; subst. destruct Hin. }
+    assert (D : forall i x, (do_args (s_copy st) (c_exports (get_conn st c)) args [] = ArgsOk i \/
+                             exists r, do_args (s_copy st) (c_exports (get_conn st c)) args [] = ArgsFail i r) ->
+                            In x i -> exists n, In (ACopyable n) args /\ sget n (s_copy st) = Some x).
+    { intros i x Hd Hx. destruct (do_args_inst _ _ _ _ _ Hd x Hx) as [[]|?]; auto. }
+    destruct ((clid <? 0) && negative_clid_ignores_name).
+    { destruct (do_args (s_copy st) (c_exports (get_conn st c)) args []) as [i|i r0] eqn:E; inversion O; subst.
+      - eapply D; eauto.
+      - eapply D; eauto. }
+    destruct m as [s|]; [|inversion O; subst; destruct Hin].
+    destruct (iface_enforced && _); [inversion O; subst; destruct Hin|].
+    destruct (do_args (s_copy st) (c_exports (get_conn st c)) args []) as [i|i r0] eqn:E.
+    + destruct (mem_str _ _); inversion O; subst; eapply D; eauto.
+    + inversion O; subst. eapply D; eauto.
+Qed.
+
+(* the shape of one inbound call, used by the theorems below *)
+Lemma step_msg_shape : forall w st c req clid m args st' r,
+  step w st (Msg c req clid m args) = (st', r) ->
+  (c_alive (get_conn st c) = false /\ st' = st /\ r = res0 Dead) \/
+  (c_alive (get_conn st c) = true /\ clid = broker_clid /\ exists out fx, broker_call m args = (out, fx) /\
+     r_out r = out /\ r_inst r = [] /\
+     match fx with
+     | FxNone => st' = st /\ r_sent r = []
+     | FxDrop => st' = set_conn st c (drop_conn (get_conn st c)) /\ r_sent r = []
+     | FxDecref k n => st' = set_conn st c (decref (get_conn st c) k n) /\ r_sent r = []
+     | FxLookup nm =>
+       match found_name w st nm with
+       | None => st' = st /\ r_sent r = []
+       | Some (o, st0) => if req =? 0 then st' = st0 /\ r_sent r = [] else grant w st0 c o "" = (st', r_sent r)
+       end
+     end) \/
+  (c_alive (get_conn st c) = true /\ clid <> broker_clid /\ exists inst out,
+     obj_call w (s_copy st) (get_conn st c) clid m args = (inst, out) /\
+     r = {| r_inst := inst; r_out := out; r_sent := [] |} /\
+     st' = match out with Aborted => set_conn st c (drop_conn (get_conn st c)) | _ => st end).
+Proof.
+  intros w st c req clid m args st' r H. cbn [step] in H.
+  destruct (c_alive (get_conn st c)) eqn:AL; cbn [negb] in H.
+  2:{ left. inversion H; subst. auto. }
+  right. destruct (clid =? broker_clid) eqn:BC.
+  - left. apply Z.eqb_eq in BC. split; [reflexivity|]. split; [exact BC|].
+    destruct (broker_call m args) as [out fx] eqn:B. exists out, fx. split; [reflexivity|].
+    destruct fx.
+    + inversion H; subst. cbn. auto.
+    + inversion H; subst. cbn. auto.
+    + destruct (found_name w st n) as [[o st0]|].
+      * destruct (req =? 0).
+        -- inversion H; subst. cbn. auto.
+        -- destruct (grant w st0 c o "") as [s2 sent]. inversion H; subst. cbn. auto.
+      * inversion H; subst. cbn. auto.
+    + inversion H; subst. cbn. auto.
+  - right. apply Z.eqb_neq in BC. split; [reflexivity|]. split; [exact BC|].
+    destruct (obj_call w (s_copy st) (get_conn st c) clid m args) as [inst out] eqn:O.
+    exists inst, out. split; [reflexivity|]. inversion H; subst. auto.
+Qed.
+
+(* a refused request has no side effects *)
+Theorem refusal_pure : forall w st c req clid m args st' r,
+  step w st (Msg c req clid m args) = (st', r) -> r_out r = Reject \/ r_out r = Dead -> st' = st /\ r_sent r = [].
+Proof.
+  intros w st c req clid m args st' r H Hout.
+  destruct (step_msg_shape _ _ _ _ _ _ _ _ _ H) as [[_ [E R]]|[[_ [_ [out [fx [B [Ho [_ F]]]]]]]|[_ [_ [inst [out [O [R E]]]]]]]].
+  - subst. auto.
+  - destruct (broker_call_fx _ _ _ _ B) as [F1 [F2 [F3 F4]]]. rewrite Ho in Hout.
+    destruct Hout as [Hout|Hout]; [|contradiction]. rewrite (F1 Hout) in F. exact F.
+  - subst r. cbn [r_out r_sent] in *. destruct (obj_call_kinds _ _ _ _ _ _ _ _ O) as [K1 K2].
+    destruct Hout as [Hout|Hout]; [|contradiction]. subst out. auto.
+Qed.
+
+(* a dropped connection loses its own table; the other connection and the Tub's tables are untouched *)
+Theorem aborted_local : forall w st c req clid m args st' r,
+  step w st (Msg c req clid m args) = (st', r) -> r_out r = Aborted ->
+  st' = set_conn st c (drop_conn (get_conn st c)) /\ r_sent r = [].
+Proof.
+  intros w st c req clid m args st' r H Hout.
+  destruct (step_msg_shape _ _ _ _ _ _ _ _ _ H) as [[_ [E R]]|[[_ [_ [out [fx [B [Ho [_ F]]]]]]]|[_ [_ [inst [out [O [R E]]]]]]]].
+  - subst. discriminate.
+  - destruct (broker_call_fx _ _ _ _ B) as [F1 [F2 [F3 F4]]]. rewrite Ho in Hout.
+    apply F2 in Hout. rewrite Hout in F. exact F.
+  - subst r. cbn [r_out r_sent] in *. subst out. auto.
+Qed.
+
+(* a call that enters an application object or a callable changes no table *)
+Theorem plain_call_pure : forall w st c req clid m args st' r,
+  step w st (Msg c req clid m args) = (st', r) ->
+  (exists o a, r_out r = Enter (EObj o a)) \/ (exists o, r_out r = Enter (ECallable o)) -> st' = st /\ r_sent r = [].
+Proof.
+  intros w st c req clid m args st' r H Hout.
+  destruct (step_msg_shape _ _ _ _ _ _ _ _ _ H) as [[_ [E R]]|[[_ [_ [out [fx [B [Ho [_ F]]]]]]]|[_ [_ [inst [out [O [R E]]]]]]]].
+  - subst. cbn in Hout. destruct Hout as [[o [a X]]|[o X]]; discriminate.
+  - exfalso. rewrite Ho in Hout. destruct Hout as [[o [a X]]|[o X]]; subst out;
+      destruct (broker_call_enter _ _ _ _ B) as [s [_ [_ [X _]]]]; discriminate.
+  - subst r. cbn [r_out r_sent] in *. destruct Hout as [[o [a X]]|[o X]]; subst out; auto.
+Qed.
+
+(* an id this connection's table does not hold is refused, whatever the other connection's table contains *)
+Theorem foreign_clid_refused : forall w st c req clid m args,
+  clid <> 0 -> c_alive (get_conn st c) = true -> zget clid (c_exports (get_conn st c)) = None ->
+  step w st (Msg c req clid m args) = (st, res0 Reject).
+Proof.
+  intros w st c req clid m args NZ AL G. cbn [step]. rewrite AL. cbn [negb].
+  destruct (clid =? broker_clid) eqn:E; [apply Z.eqb_eq in E; unfold broker_clid in E; contradiction|].
+  unfold obj_call. rewrite G. reflexivity.
+Qed.
+
+(* an argument of an OPEN type outside the closed registry, an unregistered copyable name or a your-reference this
+   connection cannot resolve keeps the call from entering anything *)
+Theorem bad_argument_never_enters : forall w st c req clid m args st' r e,
+  step w st (Msg c req clid m args) = (st', r) -> r_out r = Enter e -> clid <> 0 ->
+  (forall t, In (AOpen t) args -> mem_type [t] open_types = true) /\
+  (forall n, In (ACopyable n) args -> exists cls, sget n (s_copy st) = Some cls) /\
+  (forall k, In (AYourRef k) args -> k = 0 \/ exists o, exported st c k o).
+Proof.
+  intros w st c req clid m args st' r e H Hout NZ. cbn [step] in H.
+  destruct (negb (c_alive (get_conn st c))). { inversion H; subst. discriminate. }
+  destruct (clid =? broker_clid) eqn:BC. { apply Z.eqb_eq in BC. unfold broker_clid in BC. contradiction. }
+  destruct (obj_call w (s_copy st) (get_conn st c) clid m args) as [inst out] eqn:O.
+  inversion H; subst. cbn [r_out] in Hout. subst out.
+  destruct (obj_call_enter _ _ _ _ _ _ _ _ O) as [o [rc [_ [_ D]]]].
+  destruct (do_args_ok _ _ _ _ _ D) as [A [B C]]. split; [exact A|]. split; [exact B|].
+  intros k Hk. destruct (C k Hk) as [E|[[o' rc'] E]]; [left; exact E | right; exists o', rc'; exact E].
+Qed.
+
+Theorem top_level_pure : forall w st c t st' r,
+  step w st (TopMsg c t) = (st', r) -> st' = st /\ r_inst r = [] /\ r_sent r = [] /\ (r_out r = Reject \/ r_out r = Dead).
+Proof.
+  intros w st c t st' r H. cbn [step] in H. inversion H. cbn.
+  destruct (c_alive (get_conn st' c)); auto.
+Qed.
+
+(* name lookup yields only what the name table holds, or what a registered handler provides *)
+Theorem names_sound : forall w st n o,
+  lookup_name w st n = Some o ->
+  In (n, o) (s_n2r st) \/ (sget n (s_n2r st) = None /\ w_handler w n = Some o).
+Proof.
+  intros w st n o. unfold lookup_name. destruct (sget n (s_n2r st)) as [o'|] eqn:E; intros H.
+  - inversion H; subst. left. apply sget_In; auto.
+  - right; auto.
+Qed.
+
+Lemma found_name_lookup w st n : 
+  match found_name w st n with
+  | Some (o, st0) => lookup_name w st n = Some o /\ s_n2r st0 = s_n2r st /\ s_copy st0 = s_copy st /\
+                     s_a st0 = s_a st /\ s_b st0 = s_b st
+  | None => lookup_name w st n = None
+  end.
+Proof.
+  unfold found_name, lookup_name. destruct (sget n (s_n2r st)); [auto|].
+  destruct (w_handler w n); [|auto]. destruct (is_some _); cbn; auto.
+Qed.
